@@ -610,6 +610,40 @@ func report(root, prop, tier string, seed int, cfg *PropConfig, runs []*unitRun,
 	for _, t := range kfLines {
 		fmt.Printf("KNOWN-FINDING: property=%s %s\n", prop, t)
 	}
+	// thorough tier: the replay of every known finding is executed again (a finding that no longer
+	// reproduces is reported in the evidence as stale; it still suppresses nothing)
+	kfReplay := map[string]string{}
+	if tier == "thorough" {
+		rules := loadReplayRules(root)
+		seenRule := map[string]bool{}
+		for _, kf := range known {
+			if kf.Kind != "known" || kf.Prop != prop || kf.Obl == "" {
+				continue
+			}
+			for _, rule := range rules {
+				re, err := regexp.Compile(rule.Match)
+				if err != nil || !re.MatchString(kf.Obl) {
+					continue
+				}
+				key := rule.Template + "|" + fmt.Sprint(rule.Params)
+				if seenRule[key] {
+					kfReplay[kf.Obl] = "same replay as another finding of this run"
+					break
+				}
+				seenRule[key] = true
+				run := runReplay(root, rule, re.FindStringSubmatch(kf.Obl), ReplayInstance{})
+				switch {
+				case run == nil:
+					kfReplay[kf.Obl] = "replay driver could not be run"
+				case run.Reproduced:
+					kfReplay[kf.Obl] = "reproduced again on the real code"
+				default:
+					kfReplay[kf.Obl] = "STALE: no longer reproduces"
+				}
+				break
+			}
+		}
+	}
 	// evidence
 	var samples []sample
 	for _, id := range claimedIDs {
@@ -668,6 +702,7 @@ func report(root, prop, tier string, seed int, cfg *PropConfig, runs []*unitRun,
 		"unclaimed_not_attempted_in_quick": sortedBoolKeys(d.Skipped),
 		"discharged_not_claimed":   undecidedNew,
 		"known_findings":           kfLines,
+		"known_findings_replayed":  kfReplay,
 		"aborted_paths":            abortNotes,
 		"vacuity":                  vacuity,
 		"tool_errors":              toolErrs,
